@@ -152,6 +152,23 @@ inline std::vector<uint64_t> gen_array(Rng &r, size_t n, int cls) {
     case ARR_POOL: {
         // number of distinct values near 15% / 90% of the length (or of a 1000-element sample)
         size_t pool;
+        if (r.chance(1, 3)) {
+            // skewed: a few common values plus a fraction of values that occur once, so that
+            // the number of distinct values *seen by a sample* of n/10 (or of all n) varies
+            // around 15% / 90% - estimators that sample land on either side of their threshold
+            size_t sample = n > 10000 ? n / 10 : n;
+            size_t common = 1 + r.below(std::max<size_t>(sample / 12, 2));
+            size_t target = (r.chance(3, 4) ? sample * 15 / 100 : sample * 9 / 10);
+            size_t singles = target > common ? target - common : 1; // expected singletons per `sample` draws
+            singles += r.below(7);
+            singles = singles > 3 ? singles - 3 : singles;
+            std::vector<uint64_t> p(common);
+            bool small = r.chance(1, 2);
+            for (auto &x : p) x = small ? r.below(60000) : magnitude(r);
+            uint64_t fresh = small ? 70000 : (1ull << 40) + r.below(1000);
+            for (auto &x : v) x = r.below(sample) < singles ? fresh++ : p[r.below(common)];
+            break;
+        }
         switch (r.below(4)) {
         case 0: pool = n * 15 / 100 + r.below(4); break;
         case 1: pool = n * 9 / 10 + r.below(4); break;
